@@ -133,6 +133,111 @@ impl Ctx {
         self.server = Some(Server::new(self.cfg(), shared));
     }
 
+    /// `txn C call...`: calls are gc | nc=ID | ss=VER/SINCE/PAYLOAD | gsd=VER | gvp=PARENT | gv=VER |
+    /// av=VER/PARENT/PAYLOAD | co  (ids are symbolic specs; the snapshot time is the current second)
+    pub fn storage_txn(&mut self, c: u32, calls: &[&str]) {
+        use chrono::TimeZone;
+        let cu = self.client(c);
+        let cc = self.canon.id(cu);
+        // resolve everything first (resolution may itself read the store)
+        enum K { Gc, Nc(Uuid), Ss(Uuid, i64, u32, Vec<u8>), Gsd(Uuid), Gvp(Uuid), Gv(Uuid), Av(Uuid, Uuid, Vec<u8>), Co }
+        let now = chrono::Utc::now().timestamp();
+        let mut ks: Vec<K> = vec![];
+        let mut canon_calls: Vec<String> = vec![];
+        for t in calls {
+            let (name, arg) = t.split_once('=').unwrap_or((t, ""));
+            let parts: Vec<&str> = arg.split('/').collect();
+            match name {
+                "gc" => { ks.push(K::Gc); canon_calls.push("gc".into()); }
+                "nc" => { let l = self.resolve(parts[0]); canon_calls.push(format!("nc={}", self.canon.id(l))); ks.push(K::Nc(l)); }
+                "ss" => {
+                    let v = self.resolve(parts[0]);
+                    let since: u32 = parts[1].parse().unwrap();
+                    let d = self.payload(parts[2]);
+                    canon_calls.push(format!("ss={}/{}/{}/{}", self.canon.id(v), now, since, self.canon.payload(&d)));
+                    ks.push(K::Ss(v, now, since, d));
+                }
+                "gsd" => { let v = self.resolve(parts[0]); canon_calls.push(format!("gsd={}", self.canon.id(v))); ks.push(K::Gsd(v)); }
+                "gvp" => { let v = self.resolve(parts[0]); canon_calls.push(format!("gvp={}", self.canon.id(v))); ks.push(K::Gvp(v)); }
+                "gv" => { let v = self.resolve(parts[0]); canon_calls.push(format!("gv={}", self.canon.id(v))); ks.push(K::Gv(v)); }
+                "av" => {
+                    let v = self.resolve(parts[0]);
+                    let p = self.resolve(parts[1]);
+                    let d = self.payload(parts[2]);
+                    canon_calls.push(format!("av={}/{}/{}", self.canon.id(v), self.canon.id(p), self.canon.payload(&d)));
+                    ks.push(K::Av(v, p, d));
+                }
+                "co" => { ks.push(K::Co); canon_calls.push("co".into()); }
+                other => panic!("bad storage call {other}"),
+            }
+        }
+        let server = self.server.as_ref().unwrap();
+        let mut res: Vec<String> = vec![];
+        let mut found: Vec<Version> = vec![];
+        let mut clients_seen: Vec<taskchampion_sync_server_core::Client> = vec![];
+        let outcome = catch_unwind(AssertUnwindSafe(|| {
+            let mut txn = server.txn(cu).expect("txn");
+            for k in &ks {
+                match k {
+                    K::Gc => match txn.get_client() {
+                        Ok(None) => res.push("c:none".into()),
+                        Ok(Some(cl)) => { res.push(format!("c:#{}", clients_seen.len())); clients_seen.push(cl); }
+                        Err(_) => res.push("err".into()),
+                    },
+                    K::Nc(l) => res.push(if txn.new_client(*l).is_ok() { "ok".into() } else { "err".into() }),
+                    K::Ss(v, ts, since, d) => {
+                        let snap = Snapshot { version_id: *v, timestamp: chrono::Utc.timestamp_opt(*ts, 0).unwrap(), versions_since: *since };
+                        res.push(if txn.set_snapshot(snap, d.clone()).is_ok() { "ok".into() } else { "err".into() })
+                    }
+                    K::Gsd(v) => match txn.get_snapshot_data(*v) {
+                        Ok(None) => res.push("d:none".into()),
+                        Ok(Some(d)) => res.push(format!("d:%{}", { found.len(); let i = clients_seen.len(); let _ = i; d.iter().map(|b| b.to_string()).collect::<Vec<_>>().join(",") })),
+                        Err(_) => res.push("err".into()),
+                    },
+                    K::Gvp(p) => match txn.get_version_by_parent(*p) {
+                        Ok(None) => res.push("v:none".into()),
+                        Ok(Some(v)) => { res.push(format!("v:#{}", found.len())); found.push(v); }
+                        Err(_) => res.push("err".into()),
+                    },
+                    K::Gv(v) => match txn.get_version(*v) {
+                        Ok(None) => res.push("v:none".into()),
+                        Ok(Some(v)) => { res.push(format!("v:#{}", found.len())); found.push(v); }
+                        Err(_) => res.push("err".into()),
+                    },
+                    K::Av(v, p, d) => res.push(if txn.add_version(*v, *p, d.clone()).is_ok() { "ok".into() } else { "err".into() }),
+                    K::Co => res.push(if txn.commit().is_ok() { "ok".into() } else { "err".into() }),
+                }
+            }
+        }));
+        // canonical rendering of what was returned (ids numbered by first appearance)
+        let mut vi = 0usize;
+        let mut ci = 0usize;
+        let mut shown: Vec<String> = vec![];
+        for r in res {
+            if r.starts_with("v:#") {
+                let v = found[vi].clone();
+                vi += 1;
+                shown.push(format!("v:{}", self.version_str(&v)));
+            } else if r.starts_with("c:#") {
+                let cl = clients_seen[ci].clone();
+                ci += 1;
+                let snap = match &cl.snapshot {
+                    None => "-".to_string(),
+                    Some(sn) => format!("{}@{}+{}", self.canon.id(sn.version_id), sn.timestamp.timestamp(), sn.versions_since),
+                };
+                shown.push(format!("c:{}/{}", self.canon.id(cl.latest_version_id), snap));
+            } else if let Some(d) = r.strip_prefix("d:%") {
+                shown.push(format!("d:{}", if d.is_empty() { "-".to_string() } else { d.to_string() }));
+            } else {
+                shown.push(r);
+            }
+        }
+        if outcome.is_err() {
+            shown.push("PANIC".into());
+        }
+        self.emit(format!("txn {} {}", cc, canon_calls.join(" ")), shown.join(" "));
+    }
+
     /// make server instance k the current one; instances are separate Server + storage objects on
     /// the same SQLite directory and keep whatever process-local state they have.  For the model
     /// (and for the in-memory backend, which has one process-wide store) this is a no-op.
@@ -752,6 +857,12 @@ impl Ctx {
                 let c = c.parse().unwrap();
                 self.client(c);
                 self.setcounter(c, n.parse().unwrap())
+            }
+            ["txn", c, calls @ ..] => {
+                // storage-trait rig: one transaction on client c, the StorageTxn calls given, then drop
+                let c: u32 = c.parse().unwrap();
+                self.storage_txn(c, calls);
+                return;
             }
             ["raw"] => {
                 self.raw = true;
